@@ -7,6 +7,8 @@ import (
 
 	schema "github.com/jsightapi/jsight-schema-core"
 	"github.com/jsightapi/jsight-schema-core/bytes"
+	"github.com/jsightapi/jsight-schema-core/errs"
+	"github.com/jsightapi/jsight-schema-core/kit"
 	"github.com/jsightapi/jsight-schema-core/notations/jschema"
 
 	"github.com/jsightapi/jsight-api-core/notation"
@@ -74,6 +76,11 @@ func NewExchangeJSightSchema[T bytes.ByteKeeper](
 	err = es.JSchema.Compile()
 	if err != nil {
 		return nil, err
+	}
+
+	if es.JSchema.Inner.RootNode() == nil {
+		// nothing but a comment: the schema compiles, but there is nothing to serialise
+		return nil, kit.NewJSchemaError(es.JSchema.File, errs.ErrEmptySchema.F())
 	}
 
 	return es, nil
